@@ -112,6 +112,31 @@ Theorem C11_failover_active_settles : forall (n g : nat), g < n ->
 Proof. exact failover_active_settles. Qed.
 Print Assumptions C11_failover_active_settles.
 
+(* The rule for stale reports (failover.go errorFrom: "ignore if i is not (no longer) the active store"): a failure
+   report about a store that is not the active one changes nothing but the reporting request's own position; a
+   report about the active store advances the group by exactly one. *)
+Theorem C11_failover_stale_report_ignored : forall n resp s t a k,
+  f_pc (f_thr s t) = F2 a k -> f_active s <> a ->
+  exists s', fstep n resp s t = Some s' /\ f_active s' = f_active s /\
+             (forall u, u <> t -> f_thr s' u = f_thr s u) /\ f_pc (f_thr s' t) = F0 (S k).
+Proof. exact failover_stale_report_ignored. Qed.
+Print Assumptions C11_failover_stale_report_ignored.
+
+Theorem C11_failover_active_report_advances : forall n resp s t k,
+  f_pc (f_thr s t) = F2 (f_active s) k ->
+  exists s', fstep n resp s t = Some s' /\ f_active s' = (f_active s + 1) mod n.
+Proof. exact failover_active_report_advances. Qed.
+Print Assumptions C11_failover_active_report_advances.
+
+(* That rule is what C11_failover_progress rests on: with an errorFrom that always moves on from the REPORTING store
+   (g.active = (i+1) % len) a late report drags [active] back and a request fails although member g never failed. *)
+Theorem C11_failover_stale_report_breaks_progress :
+  exists n g resp sched t,
+    g < n /\ (forall t k, resp t k g <> AFail) /\
+    f_pc (f_thr (run (fstep_stale n resp) sched (finit 0)) t) = FDone None.
+Proof. exact failover_stale_report_breaks_progress. Qed.
+Print Assumptions C11_failover_stale_report_breaks_progress.
+
 (* ---- SwapStore (swapstore.go) ---- *)
 
 (* Any mix of requests and Swap calls, EVERY schedule: no member call ever executes on a closed store, and every
